@@ -1,5 +1,9 @@
 //! Checker binary for the properties anchored in `crates/model` (C01–C14, model part of C45).
 mod c01;
+mod c02;
+mod c03;
+mod cfgs;
+mod ph;
 mod vmarket;
 
 use mc_core::{Cli, Report};
@@ -21,6 +25,9 @@ fn main() {
             }
         }
         "C01" => c01::run(&cli),
+        "C02" => c02::run(&cli),
+        "C03" => c03::run(&cli),
+        "C04" | "C05" | "C06" | "C07" | "C08" | "C09" | "C10" | "C12" | "C13" => ph::run(&cli),
         other => {
             eprintln!("unknown property {other}");
             std::process::exit(2)
